@@ -202,6 +202,8 @@ def run(ctx):
     # ---- writers -----------------------------------------------------------------------------------------------------------
     ctx.rule('R2', 'per transition type: packed field sequence = unpacked field sequence (order, size, kind, loops)', 20)
     ctx.rule('R3', 'every type a writer can pack has a reader case (NOMC types excepted: they must have none)', 20)
+    ctx.rule('R4', 'straight-line records: a member name shared by the observer and the transition class is packed and unpacked at the same position (two fields of the same wire '
+             'type are not exchanged)', 8)
     writers = []   # (fn, class or None)
     for f in P.overriders(OBS, 'serialize'):
         writers.append(f)
@@ -233,6 +235,49 @@ def run(ctx):
                             pass
     seen_types = set()
     done_helpers = set()
+
+    nroles = [0]
+
+    def member_names(t):
+        return set(x[2].rsplit('::', 1)[-1].strip('_') for x in ex.subterms(t) if x[0] == 'field' and x[1] == ('this',))
+
+    def check_roles(f, label, tv, nm):
+        """R4: two fields of the same wire type are not exchanged between the two sides.  The writer packs expressions over its members (comm_, mbox_, tag_...), the reader
+        stores each unpacked value in a member; when member names are shared by the two classes, a name may not sit at position i on one side and at position j on the other"""
+        cf, cev, has_chan = reader[tv]
+        if not has_chan or cf is None:
+            return
+        fv, rv = A.view(f), A.view(cf)
+
+        def along_paths(view, pick):
+            """the picked events in execution order when every normal path gives the same list, else None (branching or looping records: only their shape is decided, R2)"""
+            seqs = set()
+            keep = None
+            for p_ in view.paths(max_visits=1, max_paths=400):
+                if p_.exit in ('noreturn', 'cut', 'throw'):
+                    continue
+                evs = [x for x in (pick(e) for e in view.path_events(p_)) if x is not None]
+                seqs.add(tuple(repr(x[1:]) for x in evs))
+                keep = evs
+            return keep if len(seqs) == 1 else None
+        packs = along_paths(fv, lambda e: (e, member_names(e.args[0]) if e.args else set()) if e.kind == 'call' and e.q == CH + '::pack' and tok_of_call(e, 'pack')[0] != 'type' else None)
+        unp = along_paths(rv, lambda e: (e, member_names(e.lhs) if e.lhs[0] == 'field' else set()) if e.kind == 'assign' and any(x[0] == 'call' and x[1] == CH + '::unpack' for x in ex.subterms(e.rhs)) else None)
+        allun = along_paths(rv, lambda e: (e, 0) if e.kind == 'call' and e.q == CH + '::unpack' else None)
+        if not packs or not unp or allun is None or len(packs) != len(unp) or len(allun) != len(unp):
+            return
+        w = [names for _, names in packs]
+        r = [names for _, names in unp]
+        packs = [e for e, _ in packs]
+        nroles[0] += 1
+        swapped = None
+        for i in range(len(w)):
+            for j in range(len(w)):
+                if i != j and (w[i] & r[j]) and not (w[i] & r[i]) and not (w[j] & r[j]):
+                    swapped = (i, j)
+        ctx.check(swapped is None, 'R4', '%s / %s: no field is packed at one position and unpacked at another' % (nm, label), where(f, packs[swapped[0]].line if swapped else None),
+                  ('position %d packs %s but position %d is stored in %s (and position %d in %s): two fields of the same wire type are exchanged' %
+                   (swapped[0], sorted(w[swapped[0]]), swapped[1], sorted(r[swapped[1]]), swapped[0], sorted(r[swapped[0]]))) if swapped else
+                  'writer %s ; reader %s' % ([sorted(x) for x in w], [sorted(x) for x in r]), key='R4|%s|%s' % (nm, label))
 
     def check_writer(f, label):
         cls = f.get('cls')
@@ -293,6 +338,7 @@ def run(ctx):
                       'writer %s ; reader %s %s' % (' | '.join(show(t) for t in sorted(ws)), reader[tv][1].q.rsplit('::', 1)[-1], ' | '.join(show(t) for t in sorted(rs))),
                       key='R2|%s|%s' % (nm, label))
             if ok:
+                check_roles(f, label, tv, nm)
                 wn = sorted(set(tuple(x[1] for x in t if x[0] == 'pod') for t in ws))
                 rn = sorted(set(tuple(x[1] for x in t if x[0] == 'pod') for t in rs))
                 if wn != rn:
